@@ -121,9 +121,14 @@ class ZipfRules:
                     if e['kind'] == 'decl' and e['storage'] != 'auto':
                         ct = e['type'].get('ct', '')
                         good = e['storage'] == 'thread_local' and ct.startswith(TLS_ALLOW)
-                        init = e.get('init_node') or {}
-                        cargs = [a for a in init.get('args', [])]
-                        constinit = all(a.get('k') in ('const', 'fconst') for a in cargs)
+                        # the object is built once per thread: its constructor arguments must not depend on the generator
+                        val = e.get('value')
+                        if isinstance(val, tuple) and val and val[0] == 'obj':
+                            constinit = all(is_const(a) or (isinstance(a, tuple) and a and a[0] == 'f') for a in val[3])
+                        elif isinstance(val, tuple) and val and val[0] == 'initlist':
+                            constinit = all(is_const(a) or (isinstance(a, tuple) and a and a[0] == 'f') for a in val[1])
+                        else:
+                            constinit = val is None and not e.get('has_init')
                         self.sink.emit('C19.TLS', 'ok' if (good and constinit) else 'violated', '%s::operator() %s local %s' % (sn, e['storage'], e['name']), self.loc(op, e['line']),
                                        'type %s, constructed from constants' % ct if good and constinit else
                                        'a %s local of type %s keeps state between calls / is shared between threads' % (e['storage'], ct))
@@ -606,6 +611,14 @@ class ZipfRules:
                 dv = ini.get('denom_')
                 good = isinstance(dv, tuple) and dv[0] == 'app' and dv[1] == 'GetHarmonicNum' and any(a == nv for a in dv[2])
                 self.sink.emit('C06.DENOM', 'ok' if good else 'violated', '%s denom_ = H(n_): the last bin evaluates to x / x' % sn, self.loc(c), norm(dv)[:80])
+                # nothing denom_ was derived from changes afterwards (the reader evaluates H(id + 1) / denom_ with the members as they are then)
+                ddef = [e['seq'] for e in p.events if (e['kind'] == 'init' and e.get('member') == 'denom_') or
+                        (e['kind'] == 'assign' and e['path'] == ('field', S('this'), 'denom_'))]
+                for e in p.events:
+                    if e['kind'] == 'assign' and e['path'][0] == 'field' and e['path'][1] == S('this') and e['path'][2] in ('pow_', 'n_', 'min_', 'max_', 'alpha_') \
+                            and ddef and e['seq'] > ddef[-1]:
+                        self.sink.bad('C06.DENOM', '%s constructor rewrites %s after denom_ was computed' % (sn, e['path'][2]), self.loc(c, e['line']),
+                                      'denom_ = H(n_) was evaluated with the previous value: GetCDF(n_ - 1) = H(n_) / denom_ is no longer exactly 1, the last bin can be overshot')
                 ok_order = list(ini).index('n_') < list(ini).index('denom_') and list(ini).index('pow_') < list(ini).index('denom_') if 'pow_' in ini and 'denom_' in ini and 'n_' in ini else False
                 self.sink.emit('C06.DENOM', 'ok' if ok_order else 'violated', '%s n_ and pow_ are initialised before denom_ uses them' % sn, self.loc(c), 'member order %s' % list(ini))
         # writers of denom_ / n_ outside constructors
